@@ -23,8 +23,8 @@
 (* (how the call returned), uar (accesses to the context or buffers of a call that has returned).                            *)
 (*                                                                                                                          *)
 (* Variant: "asis" = the code; "patched" = proposed repair of F4 (a follower whose wait ends by timeout and whose tag has     *)
-(* already been taken out of the map by the reader keeps waiting, without deadline, until the reader has marked it            *)
-(* COLLECTED); "nonotify" (a returning caller does not notify m_wait) and "collectself" (the reader collects through its own  *)
+(* already been taken out of the map by the reader keeps waiting - stay[c]: its further waits in m_wait have no deadline,     *)
+(* args.timeout itself is untouched - until the reader has marked it COLLECTED); "nonotify" (a returning caller does not notify m_wait) and "collectself" (the reader collects through its own  *)
 (* context instead of the target's) are deliberately broken variants that the invariants must catch.                        *)
 EXTENDS Naturals, Integers, Sequences, FiniteSets, TLC
 CONSTANTS C, Timed, MaxExpire, MaxErr, MaxBogus, Variant, EarlyResponse
@@ -144,7 +144,7 @@ SendDone(c) ==
 LdrStart(c) ==
   /\ pc[c] = "ldr" /\ cur = c
   /\ hdr' = 0
-  /\ IF expired[c] /\ ~stay[c] THEN Goto(c, "cfail") /\ cur' = c      \* "Timeout before read header": -1 without shutdown
+  /\ IF expired[c] THEN Goto(c, "cfail") /\ cur' = c                  \* "Timeout before read header": -1 without shutdown
      ELSE IF shut THEN Goto(c, "cfail") /\ cur' = c                    \* the read fails at once
      ELSE Goto(c, "rdhdr") /\ cur' = None
   /\ UNCHANGED <<atag, otag, mtag, map, mw, mr, cvq, wake, phase, th, ret, targ, stay, env, gho>>
@@ -162,7 +162,7 @@ HdrArrive(c) ==
 HdrFail(c) ==
   /\ pc[c] = "rdhdr" /\ cur = None
   /\ \/ shut /\ UNCHANGED nerr
-     \/ expired[c] /\ ~stay[c] /\ UNCHANGED nerr
+     \/ expired[c] /\ UNCHANGED nerr
      \/ nerr < MaxErr /\ nerr' = nerr + 1
   /\ shut' = TRUE /\ Goto(c, "cfail") /\ atag' = [atag EXCEPT ![c] = GARBAGE]
   /\ UNCHANGED <<cur, otag, mtag, map, mw, mr, cvq, wake, phase, th, ret, hdr, targ, stay,
@@ -201,7 +201,7 @@ BodyArrive(c) ==
 BodyFail(c) ==
   /\ pc[c] = "rdbody" /\ cur = None
   /\ \/ shut /\ UNCHANGED nerr
-     \/ expired[Into(c)] /\ ~stay[Into(c)] /\ UNCHANGED nerr
+     \/ expired[Into(c)] /\ UNCHANGED nerr
      \/ nerr < MaxErr /\ nerr' = nerr + 1
   /\ shut' = TRUE /\ Goto(c, "bodyfail")
   /\ UNCHANGED <<cur, eng, expired, nexp, wire, pendB, sent, answered, nbogus, gho>>
@@ -301,6 +301,9 @@ NoAccessAfterReturn == uar = {}
 \* the same with the recorded finding F4 tolerated, and only it: the victim returned by the follower-timeout path while a
 \* reader had already taken its tag out of the map
 NoAccessAfterReturnKF == \A x \in uar : x[4] = "timeout_claimed"
+\* ... and with the second return path that leaves a reader inside the context (only reachable with EarlyResponse): the call
+\* returned "context not found in map" (ooo:118-121) because the reader had taken its tag before the send returned
+NoAccessAfterReturnKF2 == \A x \in uar : x[4] \in {"timeout_claimed", "notinmap_claimed"}
 \* one reader at a time, and it is the holder of mutex_r
 ReaderPcs == {"ldr", "rdhdr", "hdrok", "cfail", "rdbody", "bodyok", "bodyfail"}
 OneReader == \A c \in C : pc[c] \in ReaderPcs <=> mr = c
